@@ -422,13 +422,16 @@ class FSM(addons.AddonPersistence, block.SBlock):
                    for execution
             False = transition rejected
         """
-        rodata: Mapping
-        if isinstance(data, MutableMapping):
-            # make read-only to prevent any ugly hacks
-            rodata = types.MappingProxyType(data)
-        else:
-            rodata = data
-        fsm_event_data.set(rodata)
+        def set_event_data(evdata: Mapping) -> None:
+            rodata: Mapping
+            if isinstance(evdata, MutableMapping):
+                # make read-only to prevent any ugly hacks
+                rodata = types.MappingProxyType(evdata)
+            else:
+                rodata = evdata
+            fsm_event_data.set(rodata)
+
+        set_event_data(data)
 
         newstate: Optional[str]
         if isinstance(etype, Goto):
@@ -479,9 +482,11 @@ class FSM(addons.AddonPersistence, block.SBlock):
             for _ in range(self._ct_chainlimit):
                 if self._next_event:
                     # intermediate state: skip generated events and exit the state immediately
-                    self._run_cb('exit', self._state)
                     etype, data, newstate = self._next_event
                     self._next_event = None
+                    # the chained event is now the current one (also for its exit/entry actions)
+                    set_event_data(data)
+                    self._run_cb('exit', self._state)
                 self.log_debug("state: %s -> %s (event: %s)", self._state, newstate, etype)
                 self._state = newstate
                 with self._enable_event:        # type: ignore[attr-defined]
